@@ -12,12 +12,15 @@ import (
 	"pgregory.net/rapid"
 
 	"ebusim/core"
+	"simshim/simrt"
 )
 
 // C17 — upcasting applies the whole chain or nothing.
 
 type UA struct {
-	V int `json:"v"`
+	V    int            `json:"v"`
+	Note string         `json:"note,omitempty"`
+	M    map[string]int `json:"m,omitempty"`
 }
 type UB struct {
 	V int    `json:"v"`
@@ -28,7 +31,20 @@ type UC struct {
 	Tags  []string `json:"tags"`
 }
 
-func upAB(a UA) UB { return UB{V: a.V + 1, W: fmt.Sprintf("from-a-%d", a.V)} }
+func upAB(a UA) UB { return UB{V: a.V + 1, W: fmt.Sprintf("from-a-%d-%s-%d", a.V, a.Note, len(a.M))} }
+
+// mkUA: stored UA payloads of different shapes (fields present or omitted), so that a decoder
+// that carries state from one event to the next is visible.
+func mkUA(v int) UA {
+	a := UA{V: v}
+	if v%2 == 0 {
+		a.Note = fmt.Sprintf("n%d", v)
+	}
+	if v%3 == 0 {
+		a.M = map[string]int{fmt.Sprintf("k%d", v): v}
+	}
+	return a
+}
 func upBC(b UB) UC { return UC{Total: b.V * 10, Tags: []string{b.W, "b"}} }
 
 var (
@@ -57,6 +73,9 @@ type C17Scenario struct {
 	ErrHandler bool      `json:"err_handler"`
 	Subscribe  bool      `json:"subscribe,omitempty"` // also check SubscribeWithReplay[UC]
 	Store      StoreCfg  `json:"store"`
+	// ClearDuring: another task calls ClearUpcasts while the replay runs. Each event must then be seen
+	// either fully upcast or untouched - never at an intermediate type.
+	ClearDuring bool `json:"clear_during,omitempty"`
 }
 
 func c17Name(i int) string {
@@ -98,6 +117,12 @@ func genC17(rt *rapid.T) core.Scenario {
 	sc.ErrHandler = rapid.IntRange(0, 3).Draw(rt, "errHandler") > 0
 	sc.Subscribe = sc.Typed == 2 && rapid.Bool().Draw(rt, "subscribe")
 	sc.Store = StoreCfg{Kind: rapid.SampledFrom([]string{"mem", "mem", "mem", "sqlite"}).Draw(rt, "store")}
+	if rapid.IntRange(0, 3).Draw(rt, "clearDuring") == 3 {
+		sc.ClearDuring = true
+		sc.FailAt = -1
+		sc.Subscribe = false
+		sc.Tape = core.DrawTape(rt, 200)
+	}
 	return sc
 }
 
@@ -108,7 +133,7 @@ func (ev C17Ev) data() []byte {
 		}
 		switch ev.Type {
 		case 100:
-			return mustJSON(UA{V: ev.V})
+			return mustJSON(mkUA(ev.V))
 		case 101:
 			return mustJSON(UB{V: ev.V, W: "stored"})
 		default:
@@ -174,6 +199,7 @@ func (sc *C17Scenario) Execute(t *testing.T) *core.Outcome {
 		for i, e := range sc.Edges {
 			i, e := i, e
 			if err := eventbus.RegisterUpcastFunc(bus, c17Name(e.From), c17Name(e.To), func(d json.RawMessage) (json.RawMessage, string, error) {
+				simrt.Yield(siteUpcaster)
 				if err := tick(); err != nil {
 					return nil, "", err
 				}
@@ -269,6 +295,10 @@ func (sc *C17Scenario) Execute(t *testing.T) *core.Outcome {
 		}
 		// ---- real replay
 		var seen []c17Seen
+		var clearer *simrt.Task
+		if sc.ClearDuring {
+			clearer = simrt.GoNamed("clearer", func() { bus.ClearUpcasts() })
+		}
 		err = bus.ReplayWithUpcast(ctx, eventbus.OffsetOldest, func(e *eventbus.StoredEvent) error {
 			seen = append(seen, c17Seen{e.Offset, e.Type, string(e.Data), e.Timestamp})
 			return nil
@@ -280,8 +310,20 @@ func (sc *C17Scenario) Execute(t *testing.T) *core.Outcome {
 		if failed > 0 {
 			out.Fault("upcaster-returns-error")
 		}
+		simrt.Join(clearer)
 		if len(seen) != len(stored) {
 			out.V("upcast-replay-count", "callback saw %d events, log has %d", len(seen), len(stored))
+			return
+		}
+		if sc.ClearDuring {
+			for i, s := range seen {
+				w := want[i]
+				full := s.Type == w.typ && jsonEqual([]byte(s.Data), []byte(w.data))
+				untouched := s.Type == stored[i].Type && jsonEqual([]byte(s.Data), stored[i].Data)
+				if !full && !untouched {
+					out.V("partly-upcast-event-under-concurrent-clear", "event %d (stored type %s): callback saw type %s data %s while ClearUpcasts ran concurrently; legal are the full chain result (%s) or the untouched event", i, stored[i].Type, s.Type, trunc(s.Data), w.typ)
+				}
+			}
 			return
 		}
 		for i, s := range seen {
